@@ -183,6 +183,9 @@ type Exec struct {
 	// Transitions counts applied operations; NewStates counts state keys first seen in this run.
 	Transitions int
 	NewStates   int
+	// EarlyTimers counts timers that fired while a thread was still enabled (each one a deviation);
+	// 0 means every timer of this execution fired at quiescence.
+	EarlyTimers int
 	Diverged    string
 	userEnd     []func()
 	Log         []string // harness observation log (free form, used for outcomes)
@@ -517,6 +520,9 @@ func (e *Exec) schedule(me *Thread) {
 		a := alts[choice]
 		e.Transitions++
 		if a.tm != nil {
+			if anyThread {
+				e.EarlyTimers++
+			}
 			if !anyThread && e.idleHook != nil {
 				e.idleHook(a.tm.when)
 			}
